@@ -43,17 +43,17 @@ type hcResult struct {
 }
 
 type hcRun struct {
-	mu      sync.Mutex
-	log     *logger
-	ch      *jhttp.Channel
-	gates   map[int]chan hcResult
-	inDo    []int // requests inside cli.Do, in arrival order
-	opened  int
-	closed  int
-	faults  []string
-	nsend   int
-	nrecv   int // Recv calls started
-	recvRet int // Recv calls returned
+	mu                    sync.Mutex
+	log                   *logger
+	ch                    *jhttp.Channel
+	gates                 map[int]chan hcResult
+	inDo                  []int // requests inside cli.Do, in arrival order
+	opened                int
+	closed                int
+	faults                []string
+	nsend                 int
+	nrecv                 int // Recv calls started
+	recvRet               int // Recv calls returned
 	closeCalled, closeRet bool
 }
 
